@@ -213,6 +213,11 @@ def data_listed_dirs(root, mans):
 
 def label(finding, pre, scope='', root=None, profile=None):
     kind, path, det = finding
+    if path in pre['dup_paths'] and mtext.comp_prefix(path, scope) \
+            and kind != 'uncovered':
+        # (the path itself is listed twice in one Manifest: D20, whatever else
+        # is going on around it)
+        return 'same-manifest-duplicate:' + kind
     if profile and root is not None and pre.get('data_listed_dirs'):
         # D33: the profile wanted a Manifest where a data-listed Manifest name sits
         now, _ = update_post.reachable_manifests(root, 'Manifest')
